@@ -565,6 +565,30 @@ func validateMsgCases(m *Model, pkgSuffix string) map[string]bool {
 	return out
 }
 
+// callReachesValidate: the call is Validate() itself, or a same-module helper (possibly a generic
+// instance) that calls it.
+func callReachesValidate(call *ssa.Call, depth int) bool {
+	if call.Call.IsInvoke() {
+		return call.Call.Method.Name() == "Validate"
+	}
+	sc := call.Call.StaticCallee()
+	if sc == nil {
+		return false
+	}
+	if sc.Name() == "Validate" {
+		return true
+	}
+	if depth >= 2 || len(sc.Blocks) == 0 || !isRepoPkgPath(fnPkgPath(sc)) {
+		return false
+	}
+	for _, ci := range callsIn(sc) {
+		if c2, ok := ci.(*ssa.Call); ok && callReachesValidate(c2, depth+1) {
+			return true
+		}
+	}
+	return false
+}
+
 func validateCasesIn(m *Model, fn *ssa.Function, out map[string]bool) {
 	for _, b := range fn.Blocks {
 		for _, in := range b.Instrs {
@@ -594,7 +618,7 @@ func validateCasesIn(m *Model, fn *ssa.Function, out map[string]bool) {
 				}
 				for _, in2 := range b2.Instrs {
 					if call, ok := in2.(*ssa.Call); ok {
-						if sc := call.Call.StaticCallee(); sc != nil && sc.Name() == "Validate" {
+						if callReachesValidate(call, 0) {
 							out[n.Obj().Name()] = true
 						}
 					}
